@@ -589,14 +589,15 @@ fn add_owner(users: u8, u: u8, chan: u8, dvar: u8, blob: BlobKind, delay: u32, s
 
 /// Appointments whose penalty the node reported as 'already in block chain' in the crashed run: the properties
 /// leave open whether the tower then tracks them (it does not), so only "the appointment is not dropped" is kept.
-fn normalise_already_in_chain(c: &Abstract, r: &Abstract, already: &BTreeSet<Txid>, touched_later: &BTreeSet<Vec<u8>>) -> Result<(Abstract, Abstract), String> {
+fn normalise_already_in_chain(c: &Abstract, r: &Abstract, already: &BTreeSet<Txid>, touched_later: &BTreeSet<Vec<u8>>, submitted: &[(Vec<u8>, Vec<u8>, Vec<u8>)]) -> Result<(Abstract, Abstract), String> {
     if already.is_empty() {
         return Ok((c.clone(), r.clone()));
     }
     let mut c2 = c.clone();
     let mut r2 = r.clone();
     let mut keys: BTreeMap<Vec<u8>, (Vec<u8>, usize)> = BTreeMap::new();
-    for (uuid, (user, blob, _)) in c.appts.iter().chain(r.appts.iter()) {
+    // every appointment ever submitted in this history whose penalty got that verdict
+    for (uuid, user, blob) in submitted {
         for ch in 0..8u32 {
             for d in 0..2u32 {
                 let dtx = txs::dispute(SALT, ch, d);
@@ -779,9 +780,20 @@ impl Campaign for C03 {
                     _ => None,
                 })
                 .collect();
+            let submitted: Vec<(Vec<u8>, Vec<u8>, Vec<u8>)> = h
+                .ops
+                .iter()
+                .filter_map(|o| match o {
+                    Op::Add { u, chan, dvar, blob, delay, sig } => add_owner(h.users, *u, *chan, *dvar, *blob, *delay, *sig).map(|owner| {
+                        let dispute = txs::dispute(SALT, *chan as u32, *dvar as u32);
+                        (crate::model::uuid_of(&Locator::new(dispute.compute_txid()), &user_pk(owner)), user_pk(owner).serialize().to_vec(), blob_of(*blob, &dispute))
+                    }),
+                    _ => None,
+                })
+                .collect();
             let norm = |c: &Abstract, r: &Abstract| -> Result<(Abstract, Abstract), String> {
                 let c1 = normalise_completion(c, r, slack);
-                normalise_already_in_chain(&c1, r, &already, &later_uuids)
+                normalise_already_in_chain(&c1, r, &already, &later_uuids, &submitted)
             };
             let (c_full, r_full) = match norm(&out.fin, &full) {
                 Ok(x) => x,
